@@ -25,6 +25,8 @@ type c17Params struct {
 	PreEmpty bool      `json:"preempty"` // ... all of them removed again before the Reset
 	ViaJSON  bool      `json:"viajson"`  // pass the dump through JSON
 	H2       []c17Step `json:"h2"`
+	// RemoveAllFirst: the continuation starts with Batch.RemoveEntities(All()) in both worlds.
+	RemoveAllFirst bool `json:"removeallfirst,omitempty"`
 	// Mid: further history of the SOURCE world between the dump and the load. The loaded world
 	// must reproduce the state of dump time (the dump is a value, not a view).
 	Mid []c17Step `json:"mid,omitempty"`
@@ -77,6 +79,18 @@ func dumpLoadContinuation(sim *core.Sim, p *c17Params, cs *core.Case) {
 func dumpLoadContinuationBody(sim *core.Sim, p *c17Params, cs *core.Case) {
 	A := sim.B.W
 	dump := A.DumpEntities()
+	// 0. EntityDump.Alive is documented as "IDs of all alive entities in query iteration order"
+	{
+		order := []uint32{}
+		q := A.Query(ecs.All())
+		for q.Next() {
+			order = append(order, uint32(q.Entity().ID()))
+		}
+		if !reflect.DeepEqual(order, append([]uint32{}, dump.Alive...)) {
+			c17Fail(sim, "EntityDump.Alive = %v, Query(All()) iterates ids %v (documented: alive ids in query iteration order)", dump.Alive, order)
+			return
+		}
+	}
 	// 1. loading into a world that has (or had, without reset) entities is refused
 	if len(sim.B.H) > 0 {
 		if pn := core.Call(func() { A.LoadEntities(&dump) }); pn == nil {
@@ -167,6 +181,23 @@ func dumpLoadContinuationBody(sim *core.Sim, p *c17Params, cs *core.Case) {
 	}
 	all := append([]ecs.Entity{}, sim.B.H...)
 	consumed := 0
+	if p.RemoveAllFirst {
+		// the loaded world holds the alive entities in the dumped order, which is the source's query
+		// order: removing everything at once, right after the load, recycles the ids in the same order
+		var na, nl int
+		if pn := core.Call(func() { na, nl = A.Batch().RemoveEntities(ecs.All()), L.Batch().RemoveEntities(ecs.All()) }); pn != nil {
+			c17Fail(sim, "Batch.RemoveEntities(All()) right after the load panicked: %v", pn)
+			return
+		}
+		if na != nl || na != len(alive) {
+			c17Fail(sim, "Batch.RemoveEntities(All()) right after the load removed %d entities in the source world and %d in the loaded world (%d alive)", na, nl, len(alive))
+			return
+		}
+		alive = alive[:0]
+		if cs != nil {
+			cs.Label("continuation starts with RemoveEntities(All())")
+		}
+	}
 	for i, st := range p.H2 {
 		switch st.K {
 		case "new":
@@ -383,7 +414,7 @@ func TestC17(t *testing.T) {
 		Once: func(t *testing.T, st *core.Stats) {
 			t.Run("json", func(t *testing.T) { entityJSONRoundTrip(t, st) })
 		},
-		Rule: "the dump is a value (the loaded world's later life must not change it, and loading it a second time after the continuation reproduces the state at dump time); pre-history of single and batch creations, removals, RemoveEntities and Reset (any free-list shape) on a world of generated capacity increment; then DumpEntities, optionally through encoding/json, LoadEntities into a fresh or a used-and-reset world (entities still alive, or all removed, at the Reset) of another generated capacity increment; then a generated continuation of NewEntity, NewBatchQ(n) and RemoveEntity applied to both worlds; oracle: Alive equal for every handle issued since the source's last reset and for all later ones after every continuation step, handles issued during the continuation identical in both worlds and never issued before, the loaded world's dump equals the source's (Entities, Next, Available, alive ids as a set) before and after the continuation, used count equal, loading into the non-empty source world panics and changes nothing; in a quarter of the cases the source world goes on (creations/removals) between the dump and the load, and the loaded world must equal one loaded from a deep copy taken at dump time; separately, Entity JSON round trips for arbitrary (id, generation); non-trivial = free list of length >= 2 at dump time and a continuation that creates more entities than the free list holds",
+		Rule: "the dump is a value (the loaded world's later life must not change it, and loading it a second time after the continuation reproduces the state at dump time); pre-history of single and batch creations, removals, RemoveEntities and Reset (any free-list shape) on a world of generated capacity increment; then DumpEntities, optionally through encoding/json, LoadEntities into a fresh or a used-and-reset world (entities still alive, or all removed, at the Reset) of another generated capacity increment; EntityDump.Alive equals the source's Query(All()) id order (as documented); then a generated continuation of NewEntity, NewBatchQ(n) and RemoveEntity (in a fifth of the cases preceded by Batch.RemoveEntities(All()) right after the load) applied to both worlds; oracle: Alive equal for every handle issued since the source's last reset and for all later ones after every continuation step, handles issued during the continuation identical in both worlds and never issued before, the loaded world's dump equals the source's (Entities, Next, Available, alive ids as a set) before and after the continuation, used count equal, loading into the non-empty source world panics and changes nothing; in a quarter of the cases the source world goes on (creations/removals) between the dump and the load, and the loaded world must equal one loaded from a deep copy taken at dump time; separately, Entity JSON round trips for arbitrary (id, generation); non-trivial = free list of length >= 2 at dump time and a continuation that creates more entities than the free list holds",
 		Finish: func(rt *rapid.T, sim *core.Sim, tr *tracker) {
 			p := &c17Params{
 				Cap:      rapid.SampledFrom([]int{1, 2, 3, 8, 128}).Draw(rt, "loadcap"),
@@ -391,6 +422,7 @@ func TestC17(t *testing.T) {
 				ViaJSON:  rapid.Bool().Draw(rt, "viajson"),
 				PreEmpty: rapid.Bool().Draw(rt, "preempty"),
 			}
+			p.RemoveAllFirst = rapid.IntRange(0, 4).Draw(rt, "removeallfirst") == 0
 			n := rapid.IntRange(0, 30).Draw(rt, "nh2")
 			for i := 0; i < n; i++ {
 				k := rapid.SampledFrom([]string{"new", "new", "new", "batch", "batch", "rm", "rm"}).Draw(rt, "h2k")
